@@ -72,6 +72,11 @@ pub fn verif_sort_by_key_period_start_year<T: VerifKeyed>(v: &mut Vec<T>)
 #[verifier::external_body]
 pub fn verif_sort_unstable_by_key_period_start_year<T: VerifKeyed>(v: &mut Vec<T>)
     ensures perm_facts(old(v)@, final(v)@), sorted_year(final(v)@) { unimplemented!() }
+/// `v.is_sorted_by_key(|x| x.date)` / `(|x| x.ticker)`: the std definition (every adjacent pair, hence every pair, is in key order)
+#[verifier::external_body]
+pub fn verif_is_sorted_by_key_date<T: VerifKeyed>(v: &Vec<T>) -> (r: bool) ensures r == sorted_date(v@) { unimplemented!() }
+#[verifier::external_body]
+pub fn verif_is_sorted_by_key_ticker<T: VerifKeyed>(v: &Vec<T>) -> (r: bool) ensures r == sorted_ticker(v@) { unimplemented!() }
 #[verifier::external_body]
 pub fn verif_sort_by_date_ticker<T: VerifKeyed>(v: &mut Vec<T>)
     ensures perm_facts(old(v)@, final(v)@), sorted_date_ticker(final(v)@) { unimplemented!() }
